@@ -1,6 +1,6 @@
 (* Wire-level dispatch: function id -> decoder -> model function -> encoder.
    The harness reads the `fn_*` table below (single source of the ids).  Glue only. *)
-From SG Require Import Base.Prelude Base.Val Base.NumpyPrims Model.Pairs Model.Groups Model.Estimators Model.Sparse Model.Binning Model.Kriging Model.Jackknife.
+From SG Require Import Base.Prelude Base.Val Base.NumpyPrims Model.Pairs Model.Groups Model.Estimators Model.Sparse Model.Binning Model.Kriging Model.Jackknife Model.SpaceTime Model.SumModels.
 
 Definition fn_pairs : Z := 1.
 Definition fn_groups : Z := 2.
@@ -30,6 +30,12 @@ Definition fn_squareform : Z := 25.
 Definition fn_mse : Z := 26.
 Definition fn_mae : Z := 27.
 Definition fn_delete : Z := 28.
+Definition fn_st_diff : Z := 29.
+Definition fn_groups_oc : Z := 30.
+Definition fn_st_cells : Z := 31.
+Definition fn_fit_samples : Z := 32.
+Definition fn_slice_bounds : Z := 33.
+Definition fn_split_args : Z := 34.
 
 (* one target result on the wire: [z sigma] or a failure code z1 (no points) z2 (singular) z3 (ill) *)
 Definition getResult (v : val) : option target_result :=
@@ -98,6 +104,15 @@ Definition run_fn (f : Z) (a : list val) : option val :=
   | 26%Z => do r <- getList (getOpt getQ) (arg a 0); Some (ofOpt ofQ (mse r))
   | 27%Z => do r <- getList (getOpt getQ) (arg a 0); Some (ofOpt ofQ (mae r))
   | 28%Z => do i <- getN (arg a 0); do l <- getList getQ (arg a 1); Some (ofList ofQ (delete i l))
+  | 29%Z => do v <- getList (getList getQ) (arg a 0); do T <- getN (arg a 1); Some (ofList (ofList ofQ) (st_diff v T))
+  | 30%Z => do e <- getList getQ (arg a 0); do D <- getList getQ (arg a 1); Some (ofList (ofOpt ofN) (groups_oc e D))
+  | 31%Z => do df <- getList (getList getQ) (arg a 0); do xg <- getList (getOpt getN) (arg a 1); do tg <- getList (getOpt getN) (arg a 2);
+            do X <- getN (arg a 3); do T <- getN (arg a 4);
+            Some (ofList (fun c => ofList ofQ c) (st_experimental (fun c => c) df xg tg X T))
+  | 32%Z => do xb <- getList getQ (arg a 0); do tb <- getList getQ (arg a 1); do z <- getList (getOpt getQ) (arg a 2);
+            Some (ofList (fun s => VL [VQ (fst (fst s)); VQ (snd (fst s)); VQ (snd s)]) (fit_samples xb tb z))
+  | 33%Z => do sz <- getList getN (arg a 0); Some (ofList (ofPair ofN ofN) (slice_bounds sz))
+  | 34%Z => do sz <- getList getN (arg a 0); do x <- getList getQ (arg a 1); Some (ofList (ofList ofQ) (split_args sz x))
   | _ => None
   end.
 
